@@ -14,8 +14,15 @@ ABSENT_MAX = datetime.datetime(1990, 1, 2, tzinfo=UTC)
 
 DATA_DIR = simfs.ROOT + "/data"
 
-HOSTS = ["ofx.alpha-bank.test", "ofx.beta-cu.test", "ofx.gamma-invest.test"]
-SVC_HOSTS = ["svc.alpha-bank.test", "svc.beta-cu.test", "svc.gamma-invest.test"]
+# profile URLs of the institutions in play.  Several share a host and differ only in port or query
+# string: those are different servers (e.g. a hosting provider multiplexing institutions).
+PROF_URLS = [
+    "https://ofx.alpha-bank.test/ofx/profile",
+    "https://ofx.beta-cu.test/ofx/profile",
+    "https://ofx.alpha-bank.test:8443/ofx/profile",
+    "https://ofx.alpha-bank.test/ofx/profile?fi=202",
+    "https://ofx.gamma-invest.test/ofx/profile",
+]
 V1 = [102, 103, 151, 160]
 V2 = [200, 201, 202, 203, 210, 211, 220]
 
@@ -66,25 +73,37 @@ class World:
         self.in_mutation_probe = False
 
     # -- construction ------------------------------------------------------------
-    def add_fi(self, i, same_host_svc, cookies, form, pretty, msgsets=None):
-        host = HOSTS[i]
-        prof = f"https://{host}/ofx/profile"
+    def add_fi(self, i, same_host_svc, cookies, form, pretty, msgsets=None, url_index=None):
+        k = i if url_index is None else url_index
+        prof = PROF_URLS[k]
+        scheme, host, port, target = peers.url_parts_q(prof)
+        hp = host if port == 443 else f"{host}:{port}"
         if same_host_svc == 0:
             svc = prof
         elif same_host_svc == 1:
-            svc = f"https://{host}/ofx/service"
+            svc = f"https://{hp}/ofx/service{k}"
         elif same_host_svc == 2:
-            svc = f"https://{SVC_HOSTS[i]}:8443/svc"
+            svc = f"https://svc{k}.{host.split('.', 1)[1]}:8443/svc"
         else:
-            svc = f"http://{SVC_HOSTS[i]}/plain/svc"
-        fi = peers.SimFI(self.sim, self.net, "ABG"[i], prof, svc, cookies=cookies, form=form,
+            svc = f"http://svc{k}.{host.split('.', 1)[1]}/plain/svc"
+        fi = peers.SimFI(self.sim, self.net, "ABCDE"[k], prof, svc, cookies=cookies, form=form,
                          pretty=pretty)
-        fi.index = i
+        fi.index = k
         if msgsets is not None:
             fi.msgsets = msgsets
         fi.new_profile()
         self.fis.append(fi)
         return fi
+
+    def draw_fi_urls(self, n):
+        """n distinct indices into PROF_URLS"""
+        out = []
+        for _ in range(n):
+            k = self.ch.pick("fi.url", len(PROF_URLS))
+            while k in out:
+                k = (k + 1) % len(PROF_URLS)
+            out.append(k)
+        return out
 
     def fi_of_marker(self, marker):
         for fi in self.fis:
